@@ -51,19 +51,21 @@ FLOATS = False
 FLOAT_PIECES = 17
 
 
-def with_floats(fn):
+def with_floats(fn, pieces=17):
     """variant of a harness in which whatever float arithmetic the code performs on instants and durations
     follows IEEE double rounding (symex.fp); quantities drawn through X.ranged() are confined to binary
     range pieces below 2^17"""
 
     def h(x, **kw):
-        global FLOATS
+        global FLOATS, FLOAT_PIECES
         FLOATS = True
+        prev, FLOAT_PIECES = FLOAT_PIECES, pieces
         try:
             with float_semantics():
                 return fn(x, **kw)
         finally:
             FLOATS = False
+            FLOAT_PIECES = prev
 
     h.__name__ = fn.__name__ + "_floats"
     return h
@@ -270,6 +272,9 @@ def plain_obs(obs):
 HARNESSES = {}
 
 
+EXTRA = []  # obligations contributed by the environment of a harness (e.g. the store backends' bystander store)
+
+
 class Harness:
     def __init__(self, prop, name, fn, params, desc="", split_depth=6, known=None, fresh_solver=False, cross_solver=0):
         self.fresh_solver = fresh_solver
@@ -285,16 +290,18 @@ class Harness:
 
     def run_sym(self):
         x = X()
+        del EXTRA[:]
         r = self.fn(x, **self.params)
         obligations, obs = r if isinstance(r, tuple) else (r, None)
-        return x, obligations, obs
+        return x, list(obligations) + list(EXTRA), obs
 
     def run_native(self, values):
         x = X(values)
+        del EXTRA[:]
         with native_mode():
             r = self.fn(x, **self.params)
         obligations, obs = r if isinstance(r, tuple) else (r, None)
-        return x, obligations, obs
+        return x, list(obligations) + list(EXTRA), obs
 
 
 def _worker_job(key, job, roots, max_paths, deadline, seed, validate_cap, split_depth):
